@@ -254,6 +254,15 @@ type pipeTxn struct {
 	// JudgeNested false: chained recipients failing only inside the nested
 	// pipeline are counted instead of judged (debug switch).
 	JudgeNested bool
+	// PartAccepted: some target accepted (a part of) the recipient's expansion during one of
+	// its AddRcpt calls - also when the pipeline then refused the recipient.
+	PartAccepted map[string]bool
+	// RefusedNested: a refusal of its expansion happened inside the nested pipeline.
+	RefusedNested map[string]bool
+	// JudgeRefusedShared: see judgeRefusedShared in c09_test.go (drill switch).
+	JudgeRefusedShared bool
+	// out: results seen under refused client-supplied recipients
+	refusedPart, refusedNothing int
 }
 
 // judgePipe applies the second sentence of the statement: every key is an
@@ -278,6 +287,33 @@ func judgePipe(t *pipeTxn) (out []finding, unjudgedCollision, unjudgedNested int
 	}
 	sort.Strings(keys)
 	for _, k := range keys {
+		if supplied[k] && !t.Accepted[k] {
+			// A result under an address the client supplied but the pipeline REFUSED
+			// (every AddRcpt for it failed in this transaction): "none for any other
+			// address" than the accepted ones.
+			if t.PartAccepted[k] {
+				// Contested, never judged: a target had accepted a part of the expansion
+				// before another part was refused; a Delivery cannot take a recipient
+				// back, that part will be delivered and its result has no better name.
+				t.refusedPart++
+				continue
+			}
+			// Nothing of its expansion was accepted anywhere: the result belongs to
+			// another recipient that shares an effective address with it.
+			t.refusedNothing++
+			if !t.JudgeRefusedShared {
+				continue // known defect of the unchanged tree, see judgeRefusedShared
+			}
+			cls := "top-level-target"
+			if t.RefusedNested[k] {
+				cls = "through-nested-pipeline"
+			}
+			out = append(out, finding{
+				Sig:  "pipeline/foreign-key/refused-recipient/" + cls,
+				What: fmt.Sprintf("result reported under %q, which the pipeline refused (AddRcpt failed, no target accepted any part of its expansion); accepted: %q", k, sortedKeys(t.Accepted)),
+			})
+			continue
+		}
 		if supplied[k] {
 			continue
 		}
